@@ -89,14 +89,20 @@ func NewInterp(prog *ssa.Program, mainPkg *ssa.Package, st *term.Store, sv *solv
 		"encoding/binary", "bytes", "bufio", "io", "errors", "sort", "math/bits", "unicode/utf8",
 		"strings", "slices", "cmp", "container/heap", "internal/itoa", "strconv", "unicode", "math",
 		"github.com/blevesearch/bleve_index_api", "github.com/blevesearch/scorch_segment_api/v2",
-		"internal/byteorder", "iter", "maps",
+		"internal/byteorder", "iter", "maps", "github.com/bits-and-blooms/bitset", "encoding/json",
 	} {
 		in.InterpPkgs[p] = true
 	}
 	return in
 }
 
+// resetHooks reset native-side state (stand-in engine ledger, counters) at the start of every run.
+var resetHooks []func()
+
 func (in *Interp) resetRun() {
+	for _, h := range resetHooks {
+		h()
+	}
 	in.globals = map[*ssa.Global]*Value{}
 	in.initDone = map[*ssa.Package]bool{}
 	in.steps = 0
